@@ -5,7 +5,10 @@ mod backoff;
 
 fn main() {
     let args = vh_common::Args::parse();
-    vh_common::quiet_panics();
+    // panics of the code under test are data; VH_LOUD=1 keeps the default hook for debugging the harness
+    if std::env::var_os("VH_LOUD").is_none() {
+        vh_common::quiet_panics();
+    }
     match args.module.as_str() {
         "framing" => framing::run(&args),
         "addressbook" => addressbook::run(&args),
